@@ -21,6 +21,16 @@ theorem reconLoop_append (A B : List Nat) : ∀ st,
   | nil => intro st; rfl
   | cons s A ih => intro st; simp [reconLoop, reconState, ih]
 
+theorem reconLoop_take (L : List Nat) : ∀ (k : Nat) st,
+    (reconLoop n ss rnd draw L st).take k = reconLoop n ss rnd draw (L.take k) st := by
+  induction L with
+  | nil => intro k st; simp [reconLoop]
+  | cons s L ih =>
+    intro k st
+    cases k with
+    | zero => simp [reconLoop]
+    | succ k => simp [reconLoop, ih]
+
 /-- fixed order: every entry is `subsetNum` -/
 theorem reconLoop_fixed (L : List Nat) : ∀ st,
     reconLoop n ss false draw L st = L.map fun s => some (subsetNum s ss n) := by
@@ -28,17 +38,39 @@ theorem reconLoop_fixed (L : List Nat) : ∀ st,
   | nil => intro st; rfl
   | cons s L ih => intro st; simp [reconLoop, getSubsetNum, ih]
 
-/-- randomised order, no sub-iteration of `L` starts an iteration: the array is only read -/
-theorem reconLoop_noregen (L : List Nat) (h : ∀ s ∈ L, (s - 1) % n ≠ 0) : ∀ st,
+/-- the permutation generated from state `st` -/
+def gen (st : SchedState) : List Nat := permute n ((List.range n).map fun i => draw (st.pos + i))
+
+theorem gen_perm (st : SchedState) : (gen n draw st).Perm (List.range n) := permute_perm _ _ (by simp)
+
+theorem gen_length (st : SchedState) : (gen n draw st).length = n := by
+  simpa using (gen_perm n draw st).length_eq
+
+/-- randomised order, a sub-iteration that (re)generates the order -/
+theorem step_regen (st : SchedState) (s : Nat) (h : (s - 1) % n = 0 ∨ st.arr.length ≠ n) :
+    getSubsetNum n ss true draw st s =
+      (⟨gen n draw st, st.pos + n⟩, (gen n draw st)[(s - 1) % n]?) := by
+  have hc : ((s - 1) % n == 0 || st.arr.length != n) = true := by
+    rcases h with h | h
+    · simp [h]
+    · simp [h]
+  simp [getSubsetNum, hc, gen]
+
+/-- randomised order, a sub-iteration that only reads the array -/
+theorem step_read (st : SchedState) (s : Nat) (h1 : (s - 1) % n ≠ 0) (h2 : st.arr.length = n) :
+    getSubsetNum n ss true draw st s = (st, st.arr[(s - 1) % n]?) := by
+  have hc : ((s - 1) % n == 0 || st.arr.length != n) = false := by
+    simp [h1, h2]
+  simp [getSubsetNum, hc]
+
+/-- randomised order, no sub-iteration of `L` starts an iteration and the array is there: it is only read -/
+theorem reconLoop_noregen (L : List Nat) (h : ∀ s ∈ L, (s - 1) % n ≠ 0) (st : SchedState) (hl : st.arr.length = n) :
     reconLoop n ss true draw L st = L.map fun s => st.arr[(s - 1) % n]? := by
   induction L with
-  | nil => intro st; rfl
+  | nil => rfl
   | cons s L ih =>
-    intro st
-    have hs : ((s - 1) % n == 0) = false := by
-      rw [beq_eq_false_iff_ne]; exact h s (List.mem_cons_self)
-    have ih' := ih (fun t ht => h t (List.mem_cons_of_mem _ ht)) st
-    simp [reconLoop, getSubsetNum, hs, ih']
+    have ih' := ih (fun t ht => h t (List.mem_cons_of_mem _ ht))
+    simp only [reconLoop, step_read n ss draw st s (h s List.mem_cons_self) hl, ih', List.map_cons]
 
 theorem map_getElem?_range (P : List Nat) : (List.range P.length).map (fun k => P[k]?) = P.map some := by
   apply List.ext_getElem
@@ -46,6 +78,48 @@ theorem map_getElem?_range (P : List Nat) : (List.range P.length).map (fun k => 
   · intro i h1 h2
     simp at h1
     simp [h1]
+
+theorem take_range'_min (s len k : Nat) : (List.range' s len).take k = List.range' s (min k len) := by
+  by_cases h : len ≤ k
+  · rw [List.take_range'_of_length_le h, Nat.min_eq_right h]
+  · rw [List.take_range'_of_length_ge (by omega), Nat.min_eq_left (by omega)]
+
+/-- `(a + j) % n` for `a % n + j < n` -/
+theorem add_mod_small (a j r : Nat) (hr : a % n = r) (hlt : r + j < n) : (a + j) % n = r + j := by
+  have e : a + j = (r + j) + n * (a / n) := by
+    have := Nat.mod_add_div a n
+    omega
+  rw [e, Nat.add_mul_mod_self_left, Nat.mod_eq_of_lt hlt]
+
+/-- randomised order: `q` consecutive sub-iterations from `s` (`s ≥ 1`) that stay inside one iteration, the first of which
+    generates the order `P`: the entries are `P[r], P[r+1], …` with `r = (s - 1) % n` -/
+theorem run_after_regen (st : SchedState) (s q : Nat) (hs : 1 ≤ s)
+    (h : (s - 1) % n = 0 ∨ st.arr.length ≠ n) (hq : (s - 1) % n + q ≤ n) :
+    reconLoop n ss true draw (List.range' s q) st =
+      (List.range' ((s - 1) % n) q).map fun i => (gen n draw st)[i]? := by
+  cases q with
+  | zero => rfl
+  | succ q =>
+    rw [List.range'_succ, List.range'_succ]
+    simp only [reconLoop, step_regen n ss draw st s h, List.map_cons]
+    rw [reconLoop_noregen]
+    · congr 1
+      rw [List.range'_eq_map_range, List.range'_eq_map_range (s := (s - 1) % n + 1), List.map_map, List.map_map]
+      apply List.map_congr_left
+      intro j hj
+      rw [List.mem_range] at hj
+      simp only [Function.comp_def]
+      have e : s + 1 + j - 1 = (s - 1) + (1 + j) := by omega
+      rw [e, add_mod_small n (s - 1) (1 + j) _ rfl (by omega)]
+      congr 1
+      omega
+    · intro t ht
+      rw [List.mem_range'_1] at ht
+      obtain ⟨j, hj⟩ : ∃ j, t = s + 1 + j := ⟨t - (s + 1), by omega⟩
+      have e : t - 1 = (s - 1) + (1 + j) := by omega
+      rw [e, add_mod_small n (s - 1) (1 + j) _ rfl (by omega)]
+      omega
+    · exact gen_length n draw st
 
 /-- a block of `n` sub-iterations that starts an iteration -/
 theorem block (hn : 0 < n) (m : Nat) (st : SchedState) :
@@ -56,35 +130,10 @@ theorem block (hn : 0 < n) (m : Nat) (st : SchedState) :
     rw [reconLoop_fixed, List.range'_eq_map_range]
     simp [List.map_map, Function.comp_def]
   | true =>
-    obtain ⟨n', rfl⟩ : ∃ n', n = n' + 1 := ⟨n - 1, by omega⟩
-    let P := permute (n' + 1) ((List.range (n' + 1)).map fun i => draw (st.pos + i))
-    have hP : P.Perm (List.range (n' + 1)) := permute_perm _ _ (by simp)
-    have hlen : P.length = n' + 1 := by simpa using hP.length_eq
-    refine ⟨P, ?_, hP⟩
-    have h0 : (m * (n' + 1) + 1 - 1) % (n' + 1) = 0 := by
-      simp
-    rw [List.range'_succ]
-    simp only [reconLoop, getSubsetNum, h0, beq_self_eq_true, Bool.and_self, if_true]
-    rw [reconLoop_noregen]
-    · -- all entries read the array `P`
-      show P[0]? :: (List.range' (m * (n' + 1) + 1 + 1) n').map (fun s => P[(s - 1) % (n' + 1)]?) = P.map some
-      rw [← map_getElem?_range P, hlen, List.range_succ_eq_map, List.map_cons, List.map_map,
-        List.range'_eq_map_range, List.map_map]
-      congr 1
-      apply List.map_congr_left
-      intro k hk
-      rw [List.mem_range] at hk
-      simp only [Function.comp_def]
-      have : (m * (n' + 1) + 1 + 1 + k - 1) % (n' + 1) = k + 1 := by
-        have e : m * (n' + 1) + 1 + 1 + k - 1 = (k + 1) + m * (n' + 1) := by omega
-        rw [e, Nat.add_mul_mod_self_right, Nat.mod_eq_of_lt (by omega)]
-      rw [this]
-    · intro s hs
-      rw [List.mem_range'_1] at hs
-      obtain ⟨k, hk⟩ : ∃ k, s = m * (n' + 1) + 1 + 1 + k := ⟨s - (m * (n' + 1) + 1 + 1), by omega⟩
-      have e : s - 1 = (k + 1) + m * (n' + 1) := by omega
-      rw [e, Nat.add_mul_mod_self_right, Nat.mod_eq_of_lt (by omega)]
-      omega
+    have h0 : (m * n + 1 - 1) % n = 0 := by simp
+    refine ⟨gen n draw st, ?_, gen_perm n draw st⟩
+    rw [run_after_regen n ss draw st (m * n + 1) n (by omega) (Or.inl h0) (by omega), h0,
+      ← map_getElem?_range (gen n draw st), gen_length, List.range_eq_range']
 
 end Recon
 
@@ -113,9 +162,8 @@ theorem recon_full_iteration (n ss s0 N m : Nat) (rnd : Bool) (draw : Nat → Na
     List.take_left' (by rw [reconLoop_length]; simp)]
   exact block n ss rnd draw hn m _
 
-/-- runs that never read the permutation array before it is generated: every entry is a subset number -/
-theorem recon_defined (n ss s0 N : Nat) (rnd : Bool) (draw : Nat → Nat) (hn : 0 < n)
-    (h : rnd = false ∨ (s0 - 1) % n = 0) :
+/-- every entry of every run is a valid subset number -/
+theorem recon_defined (n ss s0 N : Nat) (rnd : Bool) (draw : Nat → Nat) (hn : 0 < n) :
     ∀ e ∈ reconSchedule n ss rnd s0 N draw, ∃ x, e = some x ∧ x < n := by
   cases rnd with
   | false =>
@@ -125,54 +173,79 @@ theorem recon_defined (n ss s0 N : Nat) (rnd : Bool) (draw : Nat → Nat) (hn : 
     obtain ⟨s, _, rfl⟩ := he
     exact ⟨_, rfl, Nat.mod_lt _ hn⟩
   | true =>
-    have h0 : (s0 - 1) % n = 0 := by rcases h with h | h; · cases h
-                                     · exact h
-    -- invariant: the array is a permutation of the subsets
-    have step : ∀ (st : SchedState) (s : Nat), (st.arr.Perm (List.range n) ∨ (s - 1) % n = 0) →
+    -- invariant: the array is empty or a permutation of the subsets; after any step it is a permutation
+    have step : ∀ (st : SchedState) (s : Nat), (st.arr = [] ∨ st.arr.Perm (List.range n)) →
         (getSubsetNum n ss true draw st s).1.arr.Perm (List.range n) ∧
           ∃ x, (getSubsetNum n ss true draw st s).2 = some x ∧ x < n := by
       intro st s hinv
-      have key : (getSubsetNum n ss true draw st s).1.arr.Perm (List.range n) := by
-        by_cases hs : (s - 1) % n = 0
-        · simp only [getSubsetNum, hs, beq_self_eq_true, Bool.and_self, if_true]
-          exact permute_perm _ _ (by simp)
-        · have hs' : ((s - 1) % n == 0) = false := by rw [beq_eq_false_iff_ne]; exact hs
-          simp only [getSubsetNum, hs', Bool.and_false, Bool.false_eq_true, if_false]
-          rcases hinv with hinv | hinv
-          · exact hinv
-          · exact absurd hinv hs
-      refine ⟨key, ?_⟩
-      have hlen : (getSubsetNum n ss true draw st s).1.arr.length = n := by simpa using key.length_eq
-      have hlt : (s - 1) % n < (getSubsetNum n ss true draw st s).1.arr.length := by
-        rw [hlen]; exact Nat.mod_lt _ hn
-      refine ⟨(getSubsetNum n ss true draw st s).1.arr[(s - 1) % n], ?_, ?_⟩
-      · show (getSubsetNum n ss true draw st s).1.arr[(s - 1) % n]? = _
-        rw [List.getElem?_eq_getElem hlt]
-      · have hm : (getSubsetNum n ss true draw st s).1.arr[(s - 1) % n] ∈ List.range n :=
-          key.subset (List.getElem_mem hlt)
-        exact List.mem_range.1 hm
-    have loop : ∀ (L : List Nat) (st : SchedState), st.arr.Perm (List.range n) →
+      have main : ∀ (A : List Nat), A.Perm (List.range n) → ∃ x, A[(s - 1) % n]? = some x ∧ x < n := by
+        intro A hA
+        have hlen : A.length = n := by simpa using hA.length_eq
+        have hlt : (s - 1) % n < A.length := by rw [hlen]; exact Nat.mod_lt _ hn
+        refine ⟨A[(s - 1) % n], List.getElem?_eq_getElem hlt, ?_⟩
+        exact List.mem_range.1 (hA.subset (List.getElem_mem hlt))
+      by_cases hc : (s - 1) % n = 0 ∨ st.arr.length ≠ n
+      · rw [step_regen n ss draw st s hc]
+        exact ⟨gen_perm n draw st, main _ (gen_perm n draw st)⟩
+      · have h1 : (s - 1) % n ≠ 0 := fun h => hc (Or.inl h)
+        have h2 : st.arr.length = n := by
+          by_cases h : st.arr.length = n
+          · exact h
+          · exact absurd (Or.inr h) hc
+        have hperm : st.arr.Perm (List.range n) := by
+          rcases hinv with h | h
+          · rw [h] at h2; simp at h2; omega
+          · exact h
+        rw [step_read n ss draw st s h1 h2]
+        exact ⟨hperm, main _ hperm⟩
+    have loop : ∀ (L : List Nat) (st : SchedState), (st.arr = [] ∨ st.arr.Perm (List.range n)) →
         ∀ e ∈ reconLoop n ss true draw L st, ∃ x, e = some x ∧ x < n := by
       intro L
       induction L with
       | nil => intro st _ e he; simp [reconLoop] at he
       | cons s L ih =>
         intro st hinv e he
-        obtain ⟨k1, k2⟩ := step st s (Or.inl hinv)
+        obtain ⟨k1, k2⟩ := step st s hinv
         simp only [reconLoop, List.mem_cons] at he
         rcases he with rfl | he
         · exact k2
-        · exact ih _ k1 e he
+        · exact ih _ (Or.inr k1) e he
     intro e he
-    unfold reconSchedule at he
-    cases hL : N + 1 - s0 with
-    | zero => rw [hL] at he; simp [reconLoop] at he
-    | succ len =>
-      rw [hL, List.range'_succ] at he
-      obtain ⟨k1, k2⟩ := step ⟨[], 0⟩ s0 (Or.inr h0)
-      simp only [reconLoop, List.mem_cons] at he
-      rcases he with rfl | he
-      · exact k2
-      · exact loop _ _ k1 e he
+    exact loop _ ⟨[], 0⟩ (Or.inl rfl) e he
+
+/-- the sub-iterations that remain of the iteration in which the run starts use distinct subsets -/
+theorem recon_first_iteration_nodup (n ss s0 N : Nat) (rnd : Bool) (draw : Nat → Nat) (hn : 0 < n) (hs : 1 ≤ s0) :
+    ((reconSchedule n ss rnd s0 N draw).take (n - (s0 - 1) % n)).Nodup := by
+  have hr : (s0 - 1) % n < n := Nat.mod_lt _ hn
+  unfold reconSchedule
+  rw [reconLoop_take, take_range'_min]
+  generalize hq : min (n - (s0 - 1) % n) (N + 1 - s0) = q
+  have hqn : (s0 - 1) % n + q ≤ n := by omega
+  cases rnd with
+  | false =>
+    rw [reconLoop_fixed]
+    refine List.Nodup.map_on ?_ List.nodup_range'
+    intro a ha b hb hab
+    rw [List.mem_range'_1] at ha hb
+    simp only [subsetNum, Option.some.injEq] at hab
+    obtain ⟨i, rfl⟩ : ∃ i, a = s0 + i := ⟨a - s0, by omega⟩
+    obtain ⟨j, rfl⟩ : ∃ j, b = s0 + j := ⟨b - s0, by omega⟩
+    have ea : s0 + i + ss - 1 = (s0 - 1 + ss) + i := by omega
+    have eb : s0 + j + ss - 1 = (s0 - 1 + ss) + j := by omega
+    rw [ea, eb] at hab
+    have h2 : i ≡ j [MOD n] := Nat.ModEq.add_left_cancel' _ hab
+    have := h2.eq_of_lt_of_lt (by omega) (by omega)
+    omega
+  | true =>
+    rw [run_after_regen n ss draw ⟨[], 0⟩ s0 q hs (Or.inr (by simp; omega)) hqn]
+    have hP := (gen_perm n draw ⟨[], 0⟩).nodup_iff.2 List.nodup_range
+    have hlen := gen_length n draw ⟨[], 0⟩
+    refine List.Nodup.map_on ?_ List.nodup_range'
+    intro a ha b hb hab
+    rw [List.mem_range'_1] at ha hb
+    have ha' : a < (gen n draw ⟨[], 0⟩).length := by omega
+    have hb' : b < (gen n draw ⟨[], 0⟩).length := by omega
+    rw [List.getElem?_eq_getElem ha', List.getElem?_eq_getElem hb', Option.some.injEq] at hab
+    exact (List.Nodup.getElem_inj_iff hP).1 hab
 
 end StirVerif.C06
